@@ -39,17 +39,18 @@ type facts struct {
 	actionExits      []string
 	exitCodes        map[string]int
 	listSymbols      []string
-	spreadLocked     bool            // defaultSpreaderPipeline.worker calls spreadBranch between Lock/Unlock
-	sendErrGuarded   bool            // sendErr selects on ctx.Done()
-	verifierMutates  []string        // os.* mutating calls reachable in verifier files
-	aliasPairs       map[string]bool // deprecated alias body identical to replacement
+	spreadLocked     bool              // defaultSpreaderPipeline.worker calls spreadBranch between Lock/Unlock
+	sendErrGuarded   bool              // sendErr selects on ctx.Done()
+	verifierMutates  []string          // os.* mutating calls reachable in verifier files
+	aliasPairs       map[string]bool   // deprecated alias body identical to replacement
+	entryConfig      map[string]string // exported entry point -> the config constructor(s) it calls
 }
 
 func main() {
 	repo := flag.String("repo", "/repo", "repository root")
 	out := flag.String("out", "", "output Lean file")
 	flag.Parse()
-	f := &facts{consts: map[string]string{}, errChanCap: map[string]int{}, pkgVarWrites: map[string][]string{}, tagged: map[string]string{}, exitCodes: map[string]int{}, aliasPairs: map[string]bool{}}
+	f := &facts{consts: map[string]string{}, errChanCap: map[string]int{}, pkgVarWrites: map[string][]string{}, tagged: map[string]string{}, exitCodes: map[string]int{}, aliasPairs: map[string]bool{}, entryConfig: map[string]string{}}
 	fset := token.NewFileSet()
 	for _, dir := range []string{*repo, filepath.Join(*repo, "markdown"), filepath.Join(*repo, "cmd", "gtree")} {
 		ents, err := os.ReadDir(dir)
@@ -414,6 +415,26 @@ func (f *facts) scanFunc(fset *token.FileSet, rel string, fd *ast.FuncDecl) {
 		g := guardedSelects(fd.Body)
 		f.sendErrGuarded = len(g) > 0
 	}
+	// which configuration constructor an exported entry point calls
+	if fd.Recv == nil && ast.IsExported(fd.Name.Name) && (rel == "tree_handler.go" || rel == "tree_handler_programmably.go") {
+		seen := map[string]bool{}
+		ast.Inspect(fd.Body, func(n ast.Node) bool {
+			if ce, ok := n.(*ast.CallExpr); ok {
+				if idt, ok := ce.Fun.(*ast.Ident); ok && (idt.Name == "newConfig" || idt.Name == "newConfigWithoutEncode") {
+					seen[idt.Name] = true
+				}
+			}
+			return true
+		})
+		var l []string
+		for k := range seen {
+			l = append(l, k)
+		}
+		sort.Strings(l)
+		if len(l) > 0 {
+			f.entryConfig[fd.Name.Name] = strings.Join(l, "+")
+		}
+	}
 	// body text for alias comparison
 	start, end := fset.Position(fd.Body.Pos()).Offset, fset.Position(fd.Body.End()).Offset
 	src, err := os.ReadFile(fset.Position(fd.Pos()).Filename)
@@ -524,6 +545,12 @@ func (f *facts) render() string {
 	}
 	sort.Strings(al)
 	w("\n/-- deprecated alias = replacement, compared by function body text -/\ndef aliasBodiesEqual : List (String × Bool) := [%s]\n", strings.Join(al, ", "))
+	var ecf []string
+	for k, v := range f.entryConfig {
+		ecf = append(ecf, fmt.Sprintf("(%s, %s)", strconv.Quote(k), strconv.Quote(v)))
+	}
+	sort.Strings(ecf)
+	w("\n/-- exported entry point ↦ the configuration constructor it calls (Output keeps the encoding option; Mkdir, Verify and Walk must not) -/\ndef entryConfig : List (String × String) := [%s]\n", strings.Join(ecf, ", "))
 	var tg []string
 	for k, v := range f.tagged {
 		if strings.HasPrefix(k, "cmd") || strings.HasPrefix(k, "markdown") {
